@@ -8,16 +8,19 @@ def run(tier, seed):
     try:
         from contracts import wave_kernels_c, wave_c
         from pyvc.verify import verify
-        res.report = verify(wave_kernels_c.targets_c07() + wave_c.targets(), timeout_s=30 if tier == 'quick' else 120)
+        from contracts import simops_c
+        res.report = verify(simops_c.targets() + wave_kernels_c.targets_c07() + wave_c.targets(), timeout_s=30 if tier == 'quick' else 120)
     except ImportError:
         res.report = None
-    res.explanation = ('Tier P (unbounded): per-thread read/write frames -- _wave_eval reads only operand/own regions and writes only the own output region of the own lane (Q3, '
+    res.explanation = ('Tier P (unbounded): the levelisation phase of SimOps.__init__ (statements from `levels = ..` to `self.level_stops = ..`) is proved for any op table that is '
+                       'topologically ordered with single production: level starts strictly increasing from 0, stops = next starts, last stop = number of ops, the published '
+                       'ranges are exactly the level classes, and every operand (stem-resolved) is a source or produced in a strictly earlier level (S1, S2); per-thread read/write frames -- _wave_eval reads only operand/own regions and writes only the own output region of the own lane (Q3, '
                        'obligation on every subscript); the launcher enumerates every thread exactly once. With SchedValid/MapValid (operands from earlier levels, per-level '
                        'write/write and write/read disjointness) any two threads of a level satisfy the Bernstein conditions; the commutation step itself is on paper. '
                        'Tier B (bounded): SchedValid and the per-level disjointness on real SimOps instances, and re-execution with reversed / shuffled ops inside every level '
                        'and shuffled (sim, op) threads of the GPU kernel, comparing c, s and abuf bit by bit.')
     res.bounded = [simops_drv.part(tier, seed, which=('sched',), pid='C07'), wave_parts.part_c07(tier, seed)]
     res.assumptions = ['pairwise non-interference => every interleaving equals the sequential result: standard commutation lemma, not machine-checked',
-                       'levelisation loop of SimOps.__init__: bounded part only', 'atomic add contributions commute (integers)', 'mock GPU only']
+                       'TopoOps / single production of the op list (requires of the levelisation contract) and the release discipline of the allocation phase: bounded part only', 'atomic add contributions commute (integers)', 'mock GPU only']
     res.trusted_base = ['pyvc', 'z3 5.1.0', 'bounded/map_drv.py, bounded/wave_parts.py']
     return res
